@@ -173,14 +173,20 @@ BAD_EVENTS = ['no_doc_end', 'no_stream_end', 'double_start', 'alias_first', 'emp
 # ---------------------------------------------------------------------------
 # executing one operation
 
-CURRENT = {'nested': None, 'ctx': None}
+CURRENT = {'nested': None, 'ctx': None, 'hook': None}
 
 
 def reent_constructor(loader, node):
     """Constructor of !reent: makes a re-entrant library call chosen by the scheduler."""
     import yaml
     nested, ctx = CURRENT['nested'], CURRENT['ctx']
-    if nested is not None:
+    if CURRENT['hook'] is not None:
+        hook, CURRENT['hook'] = CURRENT['hook'], None      # one session per call, no recursion
+        try:
+            hook(0)
+        finally:
+            CURRENT['hook'] = hook
+    elif nested is not None:
         o = run_op(yaml, nested, ctx)
         ctx['nested'].append([observe.digest(nested), o])
     return 'reent'        # the outer result must not depend on the call made in here
@@ -307,7 +313,17 @@ def run_op(yaml, op, ctx):
         try:
             if api in ('dump', 'dump_all'):
                 payload = [vals[v] for v in op['vals']]
-                if op.get('between'):
+                hook = ctx.get('between_hook')
+                if hook is not None:
+                    ctx['between_hook'] = None             # the session belongs to this call only
+
+                    def docs():
+                        for n, d in enumerate(payload):
+                            if n:
+                                hook(n - 1)
+                            yield d
+                    src = docs()
+                elif op.get('between'):
                     def docs():
                         for n, d in enumerate(payload):
                             if n:
@@ -467,13 +483,50 @@ def generate(seed, tier):
         return {'mode': 'stream_dump', 'vals': [r.choice([v for v in VALUE_IDS if not (v == 'set' and opts == 'unsorted')]) for _ in range(n)],
                 'cls': r.choice(DUMPERS[:4]), 'opts': opts}
     # swarm: per-run subset of step kinds
-    kinds = {'call': 5, 'fault': r.choice([0, 1, 2]), 'interrupt': r.choice([0, 1, 2]), 'gen': r.choice([0, 2, 4])}
+    kinds = {'call': 5, 'fault': r.choice([0, 1, 2]), 'interrupt': r.choice([0, 1, 2]), 'gen': r.choice([0, 2, 4]),
+             'session': r.choice([0, 0, 1, 2])}
     bag = [k for k, w in kinds.items() for _ in range(w)]
     steps = []
     live = []
-    ntask = 0
+    state = {'ntask': 0}
+
+    def gen_step():
+        y = r.random()
+        if not live or (y < 0.3 and len(live) < 4):
+            st = {'t': 'start', 'task': state['ntask'], 'op': gen_gen_op(r)}
+            live.append(state['ntask'])
+            state['ntask'] += 1
+            return st
+        if y < 0.85:
+            st = {'t': 'next', 'task': r.choice(live), 'count': r.choice([1, 1, 2, 3, 8])}
+            if kinds['interrupt'] and r.random() < 0.15:
+                st['interrupt_at'] = r.choice([1, 2, 3, 5, 8, 13, 21, 34, 55, 89, 144, 233, 400, 700])
+            return st
+        t = r.choice(live)
+        live.remove(t)
+        return {'t': r.choice(['close', 'throw', 'drop']), 'task': t}
+
+    def inner_group():
+        g = []
+        for _ in range(r.choice([0, 1, 1, 2, 3])):
+            g.append({'t': 'call', 'op': gen_op(r, reent_ok=False)} if r.random() < 0.5 else gen_step())
+        return g
+
     for _ in range(r.randint(6, 30) if tier == 'quick' else r.randint(6, 50)):
         k = r.choice(bag)
+        if k == 'session':
+            if r.random() < 0.6:
+                n = r.randint(2, 4)
+                opts = r.choice(sorted(OPTS))
+                op = {'api': 'dump_all', 'cls': r.choice(DUMPERS), 'to': r.choice(['return', 'return', 'stream']), 'opts': opts,
+                      'vals': [r.choice([v for v in VALUE_IDS if not (v == 'set' and opts == 'unsorted')]) for _ in range(n)]}
+                steps.append({'t': 'dump_session', 'op': op, 'inner': [inner_group() for _ in range(n - 1)]})
+            else:
+                cls = r.choice([c for c in LOADERS if not c.endswith('BaseLoader')])
+                op = {'api': r.choice(['load', 'load_all']), 'cls': 'Reent' + cls, 'docs': ['reent'], 'terminate': True,
+                      'form': r.choice(['str', 'bytes', 'bstream']), 'chunk': r.choice([1, 7, None])}
+                steps.append({'t': 'load_session', 'op': op, 'inner': [inner_group() or [gen_step()]]})
+            continue
         if k == 'call':
             steps.append({'t': 'call', 'op': gen_op(r)})
         elif k == 'fault':
@@ -489,17 +542,7 @@ def generate(seed, tier):
         elif k == 'interrupt':
             steps.append({'t': 'interrupt', 'op': gen_op(r, reent_ok=r.random() < 0.3), 'at': r.random()})
         else:
-            y = r.random()
-            if not live or (y < 0.3 and len(live) < 4):
-                steps.append({'t': 'start', 'task': ntask, 'op': gen_gen_op(r)})
-                live.append(ntask)
-                ntask += 1
-            elif y < 0.85:
-                steps.append({'t': 'next', 'task': r.choice(live), 'count': r.choice([1, 1, 2, 3, 8])})
-            else:
-                t = r.choice(live)
-                live.remove(t)
-                steps.append({'t': r.choice(['close', 'throw', 'drop']), 'task': t})
+            steps.append(gen_step())
     return {'mode': 'history', 'steps': steps}
 
 
@@ -538,16 +581,18 @@ def reference(op, drain=False):
 
 def run_history(case):
     """Executed in a forked child.  Returns the list of per-step records."""
-    import gc
     import yaml
     ydir = yaml_dir()
     ctx = new_ctx()
     records = []
     gs0 = observe.global_state()
     tasks = {}
-    for n, st in enumerate(case['steps']):
+    stop = []
+
+    def exec_step(st, path, depth):
         t = st['t']
-        rec = {'step': n, 't': t}
+        rec = {'step': path, 't': t, 'depth': depth}
+        outer_nested = ctx['nested']
         ctx['nested'] = []
         if t == 'call':
             rec['op'] = st['op']
@@ -565,34 +610,67 @@ def run_history(case):
                 _, hit, _ = traced(lambda: run_op(yaml, st['op'], ctx), k, ydir)
                 rec['interrupted_at'] = k if hit else None
             ctx['nested'] = nested_first
+        elif t in ('dump_session', 'load_session'):
+            # a call in progress while other steps of the history run: between the documents of a
+            # dump_all (documents iterable) or inside a constructor (re-entrant)
+            rec['op'] = st['op']
+            inner = st['inner']
+
+            def hook(n):
+                group = inner[n] if n < len(inner) else []
+                for m, ist in enumerate(group):
+                    if stop:
+                        return
+                    exec_step(ist, path + [n, m], depth + 1)
+            saved = (ctx.get('between_hook'), CURRENT['hook'])
+            if t == 'dump_session':
+                ctx['between_hook'] = hook
+            else:
+                CURRENT['hook'] = hook
+            try:
+                rec['obs'] = run_op(yaml, st['op'], ctx)
+            finally:
+                ctx['between_hook'], CURRENT['hook'] = saved
         elif t == 'start':
             op = st['op']
-            log = []
-            src = make_source(doc_text(op), op, log)
+            src = make_source(doc_text(op), op, [])
             gen = getattr(yaml, op['api'])(src, Loader=loader_class(yaml, op['cls']))
             tasks[st['task']] = {'gen': gen, 'op': op, 'items': [], 'end': None}
             rec['task'] = st['task']
         elif t == 'next':
             task = tasks.get(st['task'])
             rec['task'] = st['task']
-            if task is not None and task['end'] is None:
-                for _ in range(st['count']):
-                    try:
-                        it = next(task['gen'])
-                        task['items'].append(canon(task['op']['api'], it))
-                    except StopIteration:
-                        task['end'] = {'stop': True}
-                        break
-                    except kernel.Hang:
-                        raise
-                    except BaseException as exc:
-                        task['end'] = {'exc': exc_summary(yaml, exc)}
-                        break
+            if task is not None and task['end'] is None and task['gen'] is not None and not task.get('running'):
+                task['running'] = True          # a generator cannot be re-entered from inside itself
+                try:
+                    for _ in range(st['count']):
+                        k = st.get('interrupt_at')
+                        try:
+                            if k:
+                                _, hit, it = traced(lambda: [next(task['gen'])], k, ydir)
+                                if hit:
+                                    task['end'] = {'interrupted': True}
+                                    rec['interrupted_at'] = k
+                                    break
+                                it = it[0]
+                            else:
+                                it = next(task['gen'])
+                            task['items'].append(canon(task['op']['api'], it))
+                        except StopIteration:
+                            task['end'] = {'stop': True}
+                            break
+                        except kernel.Hang:
+                            raise
+                        except BaseException as exc:
+                            task['end'] = {'exc': exc_summary(yaml, exc)}
+                            break
+                finally:
+                    task['running'] = False
                 rec['got'] = len(task['items'])
         elif t in ('close', 'throw', 'drop'):
             task = tasks.get(st['task'])
             rec['task'] = st['task']
-            if task is not None and task['gen'] is not None:
+            if task is not None and task['gen'] is not None and not task.get('running'):
                 g = task['gen']
                 task['gen'] = None
                 if t == 'close':
@@ -609,12 +687,18 @@ def run_history(case):
                         rec['throw'] = type(exc).__name__
                 del g
         rec['nested'] = ctx['nested']
-        gs = observe.global_state()
-        if gs != gs0:
-            rec['state_changed'] = observe.state_diff(gs0, gs)[:20]
-            records.append(rec)
-            break
+        ctx['nested'] = outer_nested
+        if depth == 0:
+            gs = observe.global_state()
+            if gs != gs0:
+                rec['state_changed'] = observe.state_diff(gs0, gs)[:20]
+                stop.append(True)
         records.append(rec)
+
+    for n, st in enumerate(case['steps']):
+        if stop:
+            break
+        exec_step(st, [n], 0)
     final = {}
     for tid, task in tasks.items():
         final[tid] = {'op': task['op'], 'items': task['items'], 'end': task['end']}
@@ -655,7 +739,11 @@ def needs_c(op):
 
 def case_ops(case):
     if case['mode'] == 'history':
-        for st in case['steps']:
+        stack = list(case['steps'])
+        while stack:
+            st = stack.pop()
+            for g in st.get('inner') or []:
+                stack.extend(g)
             if 'op' in st:
                 yield st['op']
                 for k in ('nested', 'between'):
@@ -685,7 +773,7 @@ def execute(case):
         return out
     prev = None
     logparts = []
-    for rec in res['records']:
+    for ri, rec in enumerate(res['records']):
         out['evals'] += 1
         where = {'step': rec['step'], 't': rec['t']}
         out['probes']['step:' + rec['t']] = out['probes'].get('step:' + rec['t'], 0) + 1
@@ -708,7 +796,7 @@ def execute(case):
                     out['faults']['stream-exception:' + f['ch']] = out['faults'].get('stream-exception:' + f['ch'], 0) + 1
             if rec['obs'] != want:
                 out['violations'].append({'class': 'result-differs-from-isolated-call', 'detail': dict(
-                    where, op=op, diff=obs_diff(want, rec['obs']), preceding=[r.get('op') for r in res['records'][max(0, rec['step'] - 3):rec['step']]])})
+                    where, op=op, diff=obs_diff(want, rec['obs']), preceding=[r.get('op') for r in res['records'][max(0, ri - 3):ri]])})
                 break
             for nd, nobs in rec['nested']:
                 nop = op.get('nested') or op.get('between')
@@ -727,7 +815,7 @@ def execute(case):
                     out['extra']['interrupt_not_fired'] = out['extra'].get('interrupt_not_fired', 0) + 1
             logparts.append([rec['step'], observe.digest(rec['obs']), rec.get('lines'), rec.get('interrupted_at')])
         else:
-            logparts.append([rec['step'], rec['t'], rec.get('task'), rec.get('got'), rec.get('throw')])
+            logparts.append([rec['step'], rec['t'], rec.get('task'), rec.get('got'), rec.get('throw'), rec.get('interrupted_at')])
             if rec.get('throw') not in (None, 'propagated'):
                 out['violations'].append({'class': 'exception-thrown-into-generator-not-propagated', 'detail': dict(where, got=rec['throw'])})
                 break
@@ -735,8 +823,12 @@ def execute(case):
         out['violations'].append({'class': 'global-state-changed', 'detail': {'step': 'end', 'changed': res['final_state_changed']}})
     # generator tasks: items obtained in the interleaving are a prefix of the isolated drain
     if not out['violations']:
-        sig = [[r['t'], r.get('task')] for r in res['records'] if r['t'] in ('start', 'next', 'close', 'throw', 'drop')]
-        if len(res['tasks']) > 1:
+        sig = [[r['t'], r.get('task'), r.get('depth')] for r in res['records'] if r['t'] in ('start', 'next', 'close', 'throw', 'drop')]
+        nsess = sum(1 for r in res['records'] if r['t'].endswith('_session'))
+        if nsess:
+            out['probes']['sessions_with_steps_inside_a_call'] = nsess
+            out['probes']['steps_executed_inside_a_call'] = sum(1 for r in res['records'] if r.get('depth'))
+        if len(res['tasks']) > 1 or nsess:
             out['sigs'].append(observe.digest(sig))
             out['probes']['histories_with_interleaved_generators'] = 1
         for tid, task in sorted(res['tasks'].items()):
@@ -747,7 +839,9 @@ def execute(case):
                 out['violations'].append({'class': 'generator-items-differ-from-isolated-call', 'detail': {
                     'task': tid, 'op': task['op'], 'first_difference_at': first_diff(want['items'], task['items'])}})
                 break
-            if task['end'] is not None:
+            if task['end'] is not None and task['end'].get('interrupted'):
+                out['faults']['line-interrupt-in-generator-step'] = out['faults'].get('line-interrupt-in-generator-step', 0) + 1
+            elif task['end'] is not None:
                 wend = {'exc': want['exc']} if want['exc'] else {'stop': True}
                 if task['end'] != wend or n != len(want['items']):
                     out['violations'].append({'class': 'generator-end-differs-from-isolated-call', 'detail': {
@@ -916,6 +1010,18 @@ def shrink(case):
         for cand in shr.list_candidates(steps, 1):
             yield dict(case, steps=cand)
         for i, st in enumerate(steps):
+            if st.get('inner'):
+                flat = [x for g in st['inner'] for x in g]
+                if flat:
+                    yield dict(case, steps=steps[:i] + [dict(st, inner=[[] for _ in st['inner']])] + steps[i + 1:])
+                    yield dict(case, steps=steps[:i] + flat + [dict(st, inner=[[] for _ in st['inner']])] + steps[i + 1:])
+                    for gi, g in enumerate(st['inner']):
+                        for cand in shr.list_candidates(g, 0):
+                            yield dict(case, steps=steps[:i] + [dict(st, inner=st['inner'][:gi] + [cand] + st['inner'][gi + 1:])] + steps[i + 1:])
+                else:
+                    yield dict(case, steps=steps[:i] + [{'t': 'call', 'op': st['op']}] + steps[i + 1:])
+            if st.get('interrupt_at'):
+                yield dict(case, steps=steps[:i] + [{k: v for k, v in st.items() if k != 'interrupt_at'}] + steps[i + 1:])
             op = st.get('op')
             if not op:
                 continue
